@@ -305,4 +305,91 @@ Proof.
   - apply hasattr_cong; assumption.
 Qed.
 
+(* ---- binary operators on two concrete operands (interp_bin): ==, <, <=, arithmetic, `in` with known / unknown
+        ancestors and the empty set, getTag / hasTag with known / unknown tags, contains* ---- *)
+Lemma interp_bin_sound op v1 v2 : sim (R (interp_bin pes op v1 v2)) (binary_app es op v1 v2).
+Proof.
+  assert (Stay : R (RBin op (RVal v1) (RVal v2)) = binary_app es op v1 v2) by reflexivity.
+  destruct op; unfold interp_bin; cbv beta iota zeta; try exact (of_res_sim _).
+  - (* == *) cbn. reflexivity.
+  - (* in *)
+    destruct (as_entity v1) as [u1|e1] eqn:E1; cbv beta iota.
+    2:{ unfold binary_app. rewrite E1. cbn. exact Logic.I. }
+    destruct v2 as [p|l|r|x]; cbv beta iota.
+    + destruct p as [b|z|s|u2]; cbv beta iota; try (unfold binary_app; rewrite E1; cbn; exact Logic.I).
+      destruct (uid_eqb u1 u2) eqn:EQ.
+      * unfold binary_app. rewrite E1. cbn. rewrite EQ. cbn. reflexivity.
+      * unfold get_ancestors. destruct (find_pentity u1 pes) as [pe|] eqn:F; [|rewrite Stay; apply sim_refl].
+        destruct (c_ents _ _ _ _ HC u1 pe F) as [d [Hd [_ [Hn _]]]].
+        destruct (pe_anc pe) as [anc|] eqn:A; [|rewrite Stay; apply sim_refl].
+        unfold binary_app. rewrite E1. cbn. rewrite EQ, Hd. cbn. unfold is_descendant_of.
+        rewrite (Hn anc eq_refl u2). rewrite orb_false_r. reflexivity.
+    + (* set on the right *)
+      destruct (mapM as_entity l) as [us|em] eqn:M; cbv beta iota.
+      2:{ unfold binary_app, eval_in. rewrite E1. cbn [bind]. rewrite M. cbn. exact Logic.I. }
+      set (DESC := fun u2 : uid => match find_entity u1 es with Some d => is_descendant_of d u2 | None => false end).
+      assert (RHS : binary_app es BIn v1 (VSet l) = Ok (VBool (existsb (uid_eqb u1) us || existsb DESC us))).
+      { rewrite <- existsb_orb. unfold binary_app, eval_in. rewrite E1. cbn [bind]. rewrite M. cbn [bind]. reflexivity. }
+      unfold get_ancestors. destruct (find_pentity u1 pes) as [pe|] eqn:F.
+      * destruct (c_ents _ _ _ _ HC u1 pe F) as [d [Hd [_ [Hn _]]]].
+        destruct (pe_anc pe) as [anc|] eqn:A; cbv beta iota.
+        -- assert (D : existsb DESC us = existsb (fun u2 => existsb (uid_eqb u2) anc) us).
+           { apply existsb_ext'. intros x. unfold DESC. rewrite Hd. apply (Hn anc eq_refl). }
+           rewrite RHS, D.
+           destruct (existsb (uid_eqb u1) us || existsb (fun u2 => existsb (uid_eqb u2) anc) us) eqn:B.
+           ++ cbn. reflexivity.
+           ++ rewrite andb_false_r. cbn. reflexivity.
+        -- destruct (existsb (uid_eqb u1) us) eqn:M1; cbn [orb].
+           ++ rewrite RHS; try rewrite M1; cbn; reflexivity.
+           ++ destruct us as [|u0 us']; cbn [negb andb].
+              ** rewrite RHS. cbn. reflexivity.
+              ** rewrite Stay. apply sim_refl.
+      * cbv beta iota. destruct (existsb (uid_eqb u1) us) eqn:M1; cbn [orb].
+        -- rewrite RHS; try rewrite M1; cbn; reflexivity.
+        -- destruct us as [|u0 us']; cbn [negb andb].
+           ++ rewrite RHS. cbn. reflexivity.
+           ++ rewrite Stay. apply sim_refl.
+    + unfold binary_app. rewrite E1. cbn. exact Logic.I.
+    + unfold binary_app. rewrite E1. cbn. exact Logic.I.
+  - (* getTag *)
+    destruct (as_entity v1) as [u|e1] eqn:E1; cbv beta iota.
+    2:{ unfold binary_app. rewrite E1. cbn. exact Logic.I. }
+    destruct (as_string v2) as [t|e2] eqn:E2; cbv beta iota.
+    2:{ unfold binary_app. rewrite E1. cbn [bind]. rewrite E2. cbn. exact Logic.I. }
+    unfold get_tags. destruct (find_pentity u pes) as [pe|] eqn:F; [|rewrite Stay; apply sim_refl].
+    destruct (c_ents _ _ _ _ HC u pe F) as [d [Hd [_ [_ Ht]]]].
+    destruct (pe_tags pe) as [tags|] eqn:T; [|rewrite Stay; apply sim_refl].
+    unfold binary_app. rewrite E1. cbn [bind]. rewrite E2. cbn [bind]. rewrite Hd, (Ht tags eq_refl).
+    destruct (lookup t tags); cbn; auto.
+  - (* hasTag *)
+    destruct (as_entity v1) as [u|e1] eqn:E1; cbv beta iota.
+    2:{ unfold binary_app. rewrite E1. cbn. exact Logic.I. }
+    destruct (as_string v2) as [t|e2] eqn:E2; cbv beta iota.
+    2:{ unfold binary_app. rewrite E1. cbn [bind]. rewrite E2. cbn. exact Logic.I. }
+    unfold get_tags. destruct (find_pentity u pes) as [pe|] eqn:F; [|rewrite Stay; apply sim_refl].
+    destruct (c_ents _ _ _ _ HC u pe F) as [d [Hd [_ [_ Ht]]]].
+    destruct (pe_tags pe) as [tags|] eqn:T; [|rewrite Stay; apply sim_refl].
+    unfold binary_app. rewrite E1. cbn [bind]. rewrite E2. cbn [bind]. rewrite Hd, (Ht tags eq_refl).
+    cbn. reflexivity.
+Qed.
+
+Lemma sound_bin op a b : sim (R (I a)) (R a) -> sim (R (I b)) (R b) -> sim (R (I (RBin op a b))) (R (RBin op a b)).
+Proof.
+  intros Ha Hb. cbn [interp].
+  destruct (shape (I a)) as [v1| |] eqn:Sa; destruct (shape (I b)) as [v2| |] eqn:Sb; cbv beta iota;
+    try (apply bin_cong; assumption).
+  - apply shape_val in Sa. apply shape_val in Sb. rewrite Sa in Ha. rewrite Sb in Hb.
+    apply sim_ok_l in Ha. apply sim_ok_l in Hb. cbn [reval]. rewrite Ha, Hb. cbn [bind]. apply interp_bin_sound.
+  - apply shape_err in Sb. rewrite Sb in Hb. apply sim_err_l in Hb as [e He].
+    cbn [reval]. rewrite He. destruct (R a); cbn; exact Logic.I.
+  - apply shape_err in Sa. rewrite Sa in Ha. apply sim_err_l in Ha as [e He].
+    cbn [reval]. rewrite He. cbn. exact Logic.I.
+  - apply shape_err in Sa. rewrite Sa in Ha. apply sim_err_l in Ha as [e He].
+    cbn [reval]. rewrite He. cbn. exact Logic.I.
+  - apply shape_err in Sa. rewrite Sa in Ha. apply sim_err_l in Ha as [e He].
+    cbn [reval]. rewrite He. cbn. exact Logic.I.
+  - apply shape_err in Sb. rewrite Sb in Hb. apply sim_err_l in Hb as [e He].
+    cbn [reval]. rewrite He. destruct (R a); cbn; exact Logic.I.
+Qed.
+
 End Sound.
